@@ -176,6 +176,19 @@ class Scenario:
         for f in ("u", "v", "a"):
             self.expect(f"Result(name, iter={i}) leaves the live {f} unchanged", after[f], before[f], f"Result(name, iter=i) leaves the live state at iteration i ({f})")
 
+    def op_scheme(self):
+        """switch between the steady scheme and the time scheme of the simulation (static preload followed by a transient analysis)"""
+        from EasyFEA.Simulations._simu import AlgoType
+
+        s = self.s
+        if s.algo == AlgoType.elliptic:
+            if self.sim == "thermal":
+                s.Solver_Set_Parabolic_Algorithm(dt=0.25, alpha=0.5)
+            else:
+                s.Solver_Set_Hyperbolic_Algorithm(dt=0.25)
+        else:
+            s.Solver_Set_Elliptic_Algorithm()
+
     def op_newmesh(self):
         self.s.mesh = second_mesh(self.nmesh)
         self.nmesh += 1
@@ -275,6 +288,8 @@ class Scenario:
                         self.op_move()
                     elif name == "saveload":
                         self.op_saveload()
+                    elif name == "scheme":
+                        self.op_scheme()
                     else:
                         raise KeyError(op)
                 except AssertionError as e:
@@ -422,6 +437,15 @@ def configs(tier):
                     if tier == "thorough" and n == 6 and sim != "elastic_static" and rng.random() > 0.2:
                         continue
                     seqs.append(["S"] + list(seq))
+        # one history mixing iterations saved under the steady scheme with iterations saved under the time scheme (restores happen under the
+        # time scheme: rate fields of a steady iteration are zero)
+        # (only the simulation that starts steady: its rate fields are genuinely zero when the steady iterations are saved)
+        mixed = [["S", "scheme", "S", "S", "set_iter:first", "result:first", "get:first", "set_iter:last"],
+                 ["S", "scheme", "S", "result:first", "set_iter:mid", "saveload"],
+                 ["folder:A", "S", "scheme", "S", "S", "set_iter:first", "S", "get:first", "set_iter:first"],
+                 ["S", "S", "scheme", "S", "set_iter:mid", "set_iter:first", "folder:B", "S", "result:mid"]]
+        for seq in (mixed if sim == "elastic_static" else []):
+            seqs.append(["solve"] + seq)
         for seq in seqs:
             out.append({"sim": sim, "ops": seq})
     return out
